@@ -739,3 +739,64 @@ def rule_cg_atomic(ctx, R):
                           "an error reply (line %d) is reachable after the group state was already changed by %s (line %d): the refused command has had an effect"
                           % (b.bb_line(hit[0]), c.split("::")[-1], b.bb_line(i)), b.loc(i))
     R.floor("handler_state_mutator_calls", nh)
+
+
+# ---- R-ST-RANGE-END -------------------------------------------------------------------------------
+def _sat_dec_closures(ctx, b):
+    """call blocks in b: `unwrap_or_else(|idx| if idx > 0 { idx - 1 } else { 0 })` on a search
+    result (closure returning `idx - 1` on one path and the constant 0 on another), or
+    `saturating_sub(1)` of a value derived from a search: a saturating decrement of an insertion
+    point"""
+    out = []
+    for i, t in b.calls():
+        f = t["f"] or ""
+        if b.bbs[i]["cleanup"]:
+            continue
+        if re.search(r"Result::<usize, usize>::(unwrap_or_else|map_or_else|unwrap_or)(::<.*>)?$", f):
+            for cl in t.get("clos") or ():
+                cb = ctx.prog.bodies.get(cl)
+                if cb is None:
+                    continue
+                zero = any(st["k"] == "=" and st["l"]["l"] == 0 and not st["l"]["p"] and st["r"]["k"] == "use" and op_is_const(st["r"]["o"]) and const_int_(st["r"]["o"]) == 0 for bb in cb.bbs for st in bb["s"])
+                dec = any(st["k"] == "=" and st["r"]["k"] == "bin" and st["r"].get("op") in ("Sub", "SubWithOverflow", "SubUnchecked") and op_is_const(st["r"]["b"]) and const_int_(st["r"]["b"]) == 1 for bb in cb.bbs for st in bb["s"])
+                if zero and dec:
+                    out.append(i)
+        elif re.search(r"usize::saturating_sub$|<impl usize>::saturating_sub$", f) and len(t["a"]) == 2 and op_is_const(t["a"][1]) and const_int_(t["a"][1]) == 1:
+            if prov.operand_origins(b, t["a"][0], deep=True).has_call(r"binary_search|partition_point"):
+                out.append(i)
+    return out
+
+
+def const_int_(o):
+    try:
+        return int(o.get("v")) if o.get("v") is not None else None
+    except (TypeError, ValueError):
+        return None
+
+
+def rule_st_range_end(ctx, R):
+    """XRANGE / XREVRANGE return exactly the entries with start <= id <= end.  The inclusive end
+    position of a range read is the last entry not greater than `end`; when the search says every
+    entry is greater (insertion point 0) there is no such entry and the range is empty.  A
+    saturating decrement of the insertion point (`if idx > 0 { idx - 1 } else { 0 }`,
+    `saturating_sub(1)`) used as an inclusive end conflates `nothing` with `entry 0`."""
+    n = 0
+    for fn, b in sorted(ctx.prog.bodies.items()):
+        if not fn.startswith("storage::stream::") or "::tests::" in fn or b.kind == "Closure":
+            continue
+        searches = [i for i, t in b.calls() if re.search(r"::binary_search(_by|_by_key)?(::<.*>)?$|::partition_point", t["f"] or "")]
+        if not searches:
+            continue
+        decs = set(_sat_dec_closures(ctx, b))
+        for i, t in b.calls():
+            if not re.search(r"RangeInclusive::<usize>::new$", t["f"] or "") or len(t["a"]) < 2 or b.bbs[i]["cleanup"]:
+                continue
+            n += 1
+            P = prov.operand_origins(b, t["a"][1], deep=True)
+            via = {r[2] for r in P.roots if r[0] == "call"} | {bb for _, bb in P.via}
+            hit = sorted(via & decs)
+            R.inst(fn, "inclusive-range#%d" % 0, {"function": fn, "at": b.loc(i), "end_is_a_saturating_decrement_of_an_insertion_point": bool(hit)})
+            if hit:
+                R.finding(fn, "inclusive-end:insertion-point-0-becomes-entry-0",
+                          "%s uses a saturating decrement of a binary-search insertion point (line %d) as the inclusive end of a range (line %d): when every entry is greater than the end bound the insertion point is 0, there is no entry to end at, and index 0 makes the first entry part of the answer (XRANGE s 1-0 5-0 on a stream starting at 10-0 answers 10-0)" % (fn.split("::")[-1], b.bb_line(hit[0]), b.bb_line(i)), b.loc(i))
+    R.floor("inclusive_index_ranges_in_stream_reads", n)
